@@ -18,15 +18,21 @@ pub struct CountWaker {
     pub wakes_b: AtomicU64,
     /// Live `WakerHandle`s over this block (each holds two references).
     handles: AtomicUsize,
-    /// Process-wide sequence number of the latest wake through either vtable
-    /// (0 = never): the order in which the code under test woke wakers.
+    /// Process-wide sequence number of the latest wake through the first
+    /// vtable (0 = never): the order in which the code under test woke wakers.
     pub last_seq: AtomicU64,
+    /// The same for the sibling vtable.
+    pub last_seq_b: AtomicU64,
 }
 
 static WAKE_SEQ: AtomicU64 = AtomicU64::new(1);
 
 fn stamp(cell: &CountWaker) {
     cell.last_seq.store(WAKE_SEQ.fetch_add(1, Ordering::SeqCst), Ordering::SeqCst);
+}
+
+fn stamp_b(cell: &CountWaker) {
+    cell.last_seq_b.store(WAKE_SEQ.fetch_add(1, Ordering::SeqCst), Ordering::SeqCst);
 }
 
 impl Wake for CountWaker {
@@ -51,14 +57,14 @@ unsafe fn b_clone(data: *const ()) -> RawWaker {
 unsafe fn b_wake(data: *const ()) {
     let cell = unsafe { Arc::from_raw(data.cast::<CountWaker>()) };
     cell.wakes_b.fetch_add(1, Ordering::SeqCst);
-    stamp(&cell);
+    stamp_b(&cell);
     crate::sched::notify(crate::sched::Reason::Token(Arc::as_ptr(&cell) as u64));
 }
 
 unsafe fn b_wake_by_ref(data: *const ()) {
     let cell = unsafe { &*data.cast::<CountWaker>() };
     cell.wakes_b.fetch_add(1, Ordering::SeqCst);
-    stamp(cell);
+    stamp_b(cell);
     crate::sched::notify(crate::sched::Reason::Token(data as u64));
 }
 
@@ -89,7 +95,7 @@ impl Drop for WakerHandle {
 
 impl WakerHandle {
     pub fn new() -> WakerHandle {
-        let cell = Arc::new(CountWaker { wakes: AtomicU64::new(0), wakes_b: AtomicU64::new(0), handles: AtomicUsize::new(1), last_seq: AtomicU64::new(0) });
+        let cell = Arc::new(CountWaker { wakes: AtomicU64::new(0), wakes_b: AtomicU64::new(0), handles: AtomicUsize::new(1), last_seq: AtomicU64::new(0), last_seq_b: AtomicU64::new(0) });
         let waker = Waker::from(cell.clone());
         WakerHandle { cell, waker, side_b: false }
     }
@@ -116,9 +122,9 @@ impl WakerHandle {
     pub fn wakes(&self) -> u64 {
         if self.side_b { self.cell.wakes_b.load(Ordering::SeqCst) } else { self.cell.wakes.load(Ordering::SeqCst) }
     }
-    /// Sequence number of the latest wake of this block (0 = never).
+    /// Sequence number of the latest wake of this waker (0 = never).
     pub fn last_wake_seq(&self) -> u64 {
-        self.cell.last_seq.load(Ordering::SeqCst)
+        if self.side_b { self.cell.last_seq_b.load(Ordering::SeqCst) } else { self.cell.last_seq.load(Ordering::SeqCst) }
     }
     /// Number of clones of the waker held by others (the tested code).
     pub fn foreign_refs(&self) -> usize {
